@@ -387,7 +387,8 @@ class GriffeLoader:
 
                 # Collect every imported object.
                 try:
-                    expanded.extend(self._expand_wildcard(member))  # type: ignore[arg-type]
+                    # Names imported by a wildcard import that only type checkers read are not available at runtime either.
+                    expanded.extend((*entry, member.runtime) for entry in self._expand_wildcard(member))  # type: ignore[arg-type]
                 except (AliasResolutionError, CyclicAliasError) as error:
                     logger.debug("Could not expand wildcard import %s in %s: %s", member.name, obj.path, error)
                     continue
@@ -404,7 +405,7 @@ class GriffeLoader:
                 obj.del_member(name)
 
         # Finally we process the collected objects.
-        for new_member, alias_lineno, alias_endlineno in expanded:
+        for new_member, alias_lineno, alias_endlineno, alias_runtime in expanded:
             overwrite = False
             already_present = new_member.name in obj.members
             self_alias = (
@@ -431,6 +432,7 @@ class GriffeLoader:
                     new_member,
                     lineno=alias_lineno,
                     endlineno=alias_endlineno,
+                    runtime=alias_runtime,
                     parent=obj,  # type: ignore[arg-type]
                 )
                 # Special case: we avoid overwriting a submodule with an alias pointing to it.
